@@ -480,13 +480,13 @@ theorem refineId_last {m : Mesh} {id : Nat} {ax : Ax} {m' : Mesh} (h : refineId 
 
 /-- bookkeeping while the cells `cs` are refined one after the other: unique ids, at least `N` leaves
 around the curve at time `t`, and the cells still to be refined are the only carriers of their ids -/
-structure Track (t : Rat) (N : Nat) (cs : List Cell) (m : Mesh) : Prop where
+structure CrossTrack (t : Rat) (N : Nat) (cs : List Cell) (m : Mesh) : Prop where
   ids : IdsOK m
   count : N ≤ cross m t
   own : ∀ c ∈ cs, c.id < m.nElems ∧ ∀ d ∈ m.leaves, d.id = c.id → d = c
 
-theorem Track.bisect {t : Rat} {N : Nat} {cs : List Cell} {m : Mesh} (h : Track t N cs m) {e : Cell}
-    (he : e ∈ m.leaves) (ax : Ax) : Track t N cs (bisect m e ax) := by
+theorem CrossTrack.bisect {t : Rat} {N : Nat} {cs : List Cell} {m : Mesh} (h : CrossTrack t N cs m) {e : Cell}
+    (he : e ∈ m.leaves) (ax : Ax) : CrossTrack t N cs (bisect m e ax) := by
   refine ⟨bisect_idsOK h.ids e ax, le_trans h.count (cross_bisect_ge h.ids he ax t), ?_⟩
   intro c hc
   obtain ⟨h1, h2⟩ := h.own c hc
@@ -500,11 +500,11 @@ theorem Track.bisect {t : Rat} {N : Nat} {cs : List Cell} {m : Mesh} (h : Track 
   · rw [hch.1] at hid; omega
   · rw [hch.2] at hid; omega
 
-theorem Track.step {t : Rat} {N : Nat} {c : Cell} {cs : List Cell} {m m' : Mesh}
-    (h : Track t N (c :: cs) m) (hr : refineId m c.id .space = .ok m') :
-    Track t (N + (if inT t c = true then 1 else 0)) cs m' := by
+theorem CrossTrack.step {t : Rat} {N : Nat} {c : Cell} {cs : List Cell} {m m' : Mesh}
+    (h : CrossTrack t N (c :: cs) m) (hr : refineId m c.id .space = .ok m') :
+    CrossTrack t (N + (if inT t c = true then 1 else 0)) cs m' := by
   obtain ⟨M, c', hby, hf, rfl⟩ := refineId_last hr
-  have hM : Track t N (c :: cs) M := hby (Track t N (c :: cs)) (fun m e ax he hq => hq.bisect he ax) h
+  have hM : CrossTrack t N (c :: cs) M := hby (CrossTrack t N (c :: cs)) (fun m e ax he hq => hq.bisect he ax) h
   obtain ⟨hc', hid⟩ := findLeaf_some hf
   have hcc : c' = c := (hM.own c (by simp)).2 c' hc' hid
   subst hcc
@@ -514,7 +514,7 @@ theorem Track.step {t : Rat} {N : Nat} {c : Cell} {cs : List Cell} {m m' : Mesh}
   have := hM.count
   omega
 
-theorem Track.all {t : Rat} : ∀ (cs : List Cell) (N : Nat) (m m' : Mesh), Track t N cs m →
+theorem CrossTrack.all {t : Rat} : ∀ (cs : List Cell) (N : Nat) (m m' : Mesh), CrossTrack t N cs m →
     refineAll m (cs.map (·.id)) .space = .ok m' → IdsOK m' ∧ N + cs.countP (inT t) ≤ cross m' t := by
   intro cs
   induction cs with
@@ -540,7 +540,7 @@ theorem Track.all {t : Rat} : ∀ (cs : List Cell) (N : Nat) (m m' : Mesh), Trac
 doubles the number of leaves around the curve at every time -/
 theorem guardStep_double {m m' : Mesh} (h : IdsOK m) (hr : guardStep m = .ok m') :
     IdsOK m' ∧ ∀ t, 2 * cross m t ≤ cross m' t := by
-  have htr : ∀ t, Track t (cross m t) m.leaves m := fun t =>
+  have htr : ∀ t, CrossTrack t (cross m t) m.leaves m := fun t =>
     ⟨h, le_refl _, fun c hc => ⟨h.2 c hc, fun d hd hid => h.id_inj hd hc hid⟩⟩
   refine ⟨((htr 0).all _ _ _ _ hr).1, fun t => ?_⟩
   have := ((htr t).all _ _ _ _ hr).2
